@@ -3,15 +3,18 @@
 
   `Clean L b`  : the bytes `b` are a concatenation of chunks, each of which is template text
                  (`L`), the `escape` of something, or the engine's own rendering of a value that
-                 is not text (a number, a bool, nil, `<[]string Value>` …).
+                 is not text (a number, a bool, nil, `<[]string Value>` …) — or such a chunk with
+                 some whitespace bytes deleted (by `spaceless`).
   `ValOK L v`  : every `*Value` box inside `v` that is marked safe holds a value of *safe shape*:
                  clean text (what a macro call or `block.Super` returned), an in-template list
                  literal, or a byte of such a text; and `v` contains no Go function.
   `NodeOK L n` : the node uses no opt-out (`safe` filter, `autoescape off`) and stays inside the
-                 fragment the theorem covers (no `filter` tag, no `spaceless`, no lazy include);
+                 fragment the theorem covers (no `filter` tag, no lazy include);
                  its literal text is template text.
 -/
 import Pongo.Model.Exec
+import Pongo.Lemmas.Spaceless
+import Pongo.Lemmas.ExprAll
 
 namespace Pongo
 
@@ -23,6 +26,21 @@ inductive Chunk : Bytes → Prop
   | lit (c : Bytes) : L c → Chunk c
   | esc (x : Bytes) : Chunk (escapeHtml x)
   | engine (v : Val) : v.isString = false → v.isStringer = false → Chunk v.toS
+  /-- a chunk from which whitespace bytes were deleted (what `spaceless` does to its rendered body) -/
+  | thin (c' c : Bytes) : Chunk c' → c.Sublist c' → nonWs c = nonWs c' → Chunk c
+
+/-- every chunk is one of the three base kinds with some whitespace bytes deleted (none, unless it
+    went through `spaceless`) -/
+theorem Chunk.base {c : Bytes} (h : Chunk L c) :
+    ∃ c', c.Sublist c' ∧ nonWs c = nonWs c' ∧
+      (L c' ∨ (∃ x, c' = escapeHtml x) ∨ (∃ v : Val, v.isString = false ∧ v.isStringer = false ∧ c' = v.toS)) := by
+  induction h with
+  | lit c h => exact ⟨c, List.Sublist.refl _, rfl, Or.inl h⟩
+  | esc x => exact ⟨_, List.Sublist.refl _, rfl, Or.inr (Or.inl ⟨x, rfl⟩)⟩
+  | engine v h1 h2 => exact ⟨_, List.Sublist.refl _, rfl, Or.inr (Or.inr ⟨v, h1, h2, rfl⟩)⟩
+  | thin c' c _ hs hn ih =>
+    obtain ⟨c'', hs', hn', hk⟩ := ih
+    exact ⟨c'', hs.trans hs', hn.trans hn', hk⟩
 
 def Clean (b : Bytes) : Prop := ∃ cs : List Bytes, b = cs.flatten ∧ ∀ c ∈ cs, Chunk L c
 
@@ -38,6 +56,38 @@ theorem Clean.append {a b : Bytes} (ha : Clean L a) (hb : Clean L b) : Clean L (
   rcases List.mem_append.mp hc with h | h
   · exact ha c h
   · exact hb c h
+
+/-- deleting whitespace bytes from clean output leaves clean output: the deletions fall into the
+    chunks, each of which stays a (thinned) chunk -/
+theorem Clean.thin {b : Bytes} (hb : Clean L b) : ∀ a : Bytes, a.Sublist b → nonWs a = nonWs b → Clean L a := by
+  obtain ⟨cs, rfl, hcs⟩ := hb
+  induction cs with
+  | nil =>
+    intro a hs _
+    simp only [List.flatten_nil, List.sublist_nil] at hs
+    subst hs
+    exact Clean.nil L
+  | cons c cs ih =>
+    intro a hs hn
+    simp only [List.flatten_cons] at hs hn
+    obtain ⟨a1, a2, rfl, h1, h2⟩ := List.sublist_append_iff.mp hs
+    have f1 : (nonWs a1).Sublist (nonWs c) := h1.filter _
+    have f2 : (nonWs a2).Sublist (nonWs cs.flatten) := h2.filter _
+    have hn' : nonWs a1 ++ nonWs a2 = nonWs c ++ nonWs cs.flatten := by
+      simpa only [nonWs, List.filter_append] using hn
+    have hl : (nonWs a1).length = (nonWs c).length := by
+      have l1 := f1.length_le
+      have l2 := f2.length_le
+      have := congrArg List.length hn'
+      simp only [List.length_append] at this
+      omega
+    have e1 : nonWs a1 = nonWs c := f1.eq_of_length hl
+    have e2 : nonWs a2 = nonWs cs.flatten := by
+      rw [e1] at hn'
+      exact List.append_cancel_left hn'
+    have hc : Chunk L c := hcs c List.mem_cons_self
+    exact Clean.append L (Clean.of_chunk L (Chunk.thin c a1 hc h1 e1))
+      (ih (fun x hx => hcs x (List.mem_cons_of_mem _ hx)) a2 h2 e2)
 
 def listT : Bytes := b!"[]*pongo2.Value"
 
@@ -76,24 +126,10 @@ def FrameOK (f : Frame) : Prop := EnvOK L f.priv ∧ EnvOK L f.pub ∧ f.autoesc
 
 /-! ### the fragment of the template language -/
 
-mutual
-  inductive ExprOK : Expr → Prop
-    | str (s p) : ExprOK (.str s p)
-    | int (i p) : ExprOK (.int i p)
-    | float (f p) : ExprOK (.float f p)
-    | bool (b p) : ExprOK (.bool b p)
-    | var (parts p) : (∀ x ∈ parts, PartOK x) → ExprOK (.var parts p)
-    | arr (items p) : (∀ x ∈ items, ExprOK x) → ExprOK (.arr items p)
-    | filtered (e chain p) : ExprOK e → (∀ f ∈ chain, FCallOK f) → ExprOK (.filtered e chain p)
-    | unary (n s e) : ExprOK e → ExprOK (.unary n s e)
-    | bin (op a b p) : ExprOK a → ExprOK b → ExprOK (.bin op a b p)
-  inductive PartOK : Part → Prop
-    | ident (s call) : (∀ args, call = some args → ∀ a ∈ args, ExprOK a) → PartOK (.ident s call)
-    | idx (i call) : (∀ args, call = some args → ∀ a ∈ args, ExprOK a) → PartOK (.idx i call)
-    | sub (e call) : ExprOK e → (∀ args, call = some args → ∀ a ∈ args, ExprOK a) → PartOK (.sub e call)
-  inductive FCallOK : FCall → Prop
-    | mk (name param p) : name ≠ b!"safe" → (∀ e, param = some e → ExprOK e) → FCallOK (.mk name param p)
-end
+/-- no opt-out: no filter of the expression is `safe` (see `Lemmas/ExprAll.lean`) -/
+abbrev ExprOK : Expr → Prop := ExprAll (fun n => n ≠ b!"safe")
+abbrev PartOK : Part → Prop := PartAll (fun n => n ≠ b!"safe")
+abbrev FCallOK : FCall → Prop := FCallAll (fun n => n ≠ b!"safe")
 
 inductive NodeOK : Node → Prop
   | html (val tl tr a b o) : (∀ tb lb, L (htmlOut tb lb val tl tr a b)) → NodeOK (.html val tl tr a b o)
@@ -120,6 +156,7 @@ inductive NodeOK : Node → Prop
   | tagMacro (idx) : NodeOK (.tagMacro idx)
   | tagNow (f k) : NodeOK (.tagNow f k)
   | tagSet (name e) : ExprOK e → NodeOK (.tagSet name e)
+  | tagSpaceless (body) : (∀ n ∈ body, NodeOK n) → NodeOK (.tagSpaceless body)
   | tagSsi (content ti) : (∀ c, content = some c → L c) → NodeOK (.tagSsi content ti)
   | tagTemplatetag (content) : L content → NodeOK (.tagTemplatetag content)
   | tagWidthratio (c m w asName) : ExprOK c → ExprOK m → ExprOK w → NodeOK (.tagWidthratio c m w asName)
